@@ -50,9 +50,9 @@ func zlist(xs []string) string {
 	p := make([]string, len(xs))
 	for i, x := range xs {
 		if strings.HasPrefix(x, "-") {
-			p[i] = "(" + x + ")"
+			p[i] = "(" + x + ")%Z"
 		} else {
-			p[i] = x
+			p[i] = x + "%Z"
 		}
 	}
 	return "[" + strings.Join(p, "; ") + "]"
@@ -77,11 +77,11 @@ func Case(class string, fn int, args []Arg, f func() []string) Item {
 	impl := "GPanic"
 	var implJ any = "panic"
 	if !panicked {
-		impl = "(GVal " + zlist(res) + "%Z)"
+		impl = "(GVal " + zlist(res) + ")"
 		implJ = res
 	}
 	return Item{Class: class,
-		Coq:   fmt.Sprintf("CGen %d%%N ([%s]%%Z : list (list Z)) %s", fn, strings.Join(as, "; "), impl),
+		Coq:   fmt.Sprintf("CGen %d%%N ([%s] : list (list Z)) %s", fn, strings.Join(as, "; "), impl),
 		Input: map[string]any{"fn": fn, "args": args}, Impl: implJ}
 }
 
